@@ -168,20 +168,22 @@ def c04_events(version, n, seed):
     # ---- rejection of energies outside the table
     for e in (5.0, 5.999999, np.nextafter(6.0, 0), 6.0, 12.0, np.nextafter(12.0, 13), 12.000001, 13.5):
         for what in ("tau_energy", "tau_exit_prob", "__call__"):
-            bb = np.array([0.3, 0.001, 0.2])        # the offending energy sits at an angle inside the table
+          for where in ("in-table angle", "below-minimum angle"):
+            # the offending energy sits at an angle inside the table / below the tabulated minimum (minimum-angle edge: needs the table too)
+            bb = np.array([0.3, 0.001, 0.2]) if where == "in-table angle" else np.array([0.3, 0.2, 0.0005])
             ee = np.array([8.0, 9.0, e]) if what != "__call__" else np.array([e, e, e])
             try:
                 with rngmod.constant(0.4):
                     if what == "tau_energy":
                         taus.tau_energy(bb, ee, np.array([0.5, 0.5, 0.5]))
                     elif what == "tau_exit_prob":
-                        taus.tau_exit_prob(np.array([0.3, 0.2, 0.1]), ee)
+                        taus.tau_exit_prob(bb[::-1].copy() if where == "in-table angle" else bb, ee)
                     else:
-                        taus(np.array([0.3, 0.2, 0.1]), ee)
+                        taus(bb[::-1].copy() if where == "in-table angle" else bb, ee if where == "in-table angle" else np.array([8.0, 9.0, e]))
                 raised = False
             except Exception:
                 raised = True
-            events.append({"kind": "reject", "e": bits(e), "raised": raised, "_m": {"ver": version, "e": e, "what": what, "raised": raised}})
+            events.append({"kind": "reject", "e": bits(e), "raised": raised, "_m": {"ver": version, "e": e, "what": what, "where": where, "raised": raised}})
     # ---- explicit u == internal generator for the same numbers (no assumption on draw order: constant stream)
     for c in (0.137, 0.5, 0.93):
         k = 40
@@ -322,12 +324,19 @@ def c05_events(version, n, seed, all_nodes=True):
             events.append({"kind": "pexit", "e": bits(float(xe[idx])), "b": bits(float(xb[idx])), "p": bits(float(po[idx])),
                            "_m": {"ver": version, "e": float(xe[idx]), "b": float(xb[idx]), "p": float(po[idx]), "form": form}})
     for e in (5.0, np.nextafter(6.0, 0), 6.0, 12.0, np.nextafter(12.0, 13), 14.0):
-        try:
-            taus.tau_exit_prob(np.array([0.3, 0.2]), np.array([8.0, e]))
-            raised = False
-        except Exception:
-            raised = True
-        events.append({"kind": "reject", "e": bits(e), "raised": raised, "_m": {"ver": version, "e": e, "what": "tau_exit_prob", "raised": raised}})
+        # the offending energy at an angle inside the table, at an angle BELOW the tabulated minimum (evaluated on the minimum-angle edge,
+        # so it needs the table as well; every other event of the batch is fine), and alone
+        for where, bb, ee in (("in-table angle", np.array([0.3, 0.2]), np.array([8.0, e])),
+                              ("below-minimum angle", np.array([0.3, 0.5 * float(B[0]), 0.2]), np.array([8.0, e, 9.0])),
+                              ("angle 0", np.array([0.0, 0.3]), np.array([e, 8.0])),
+                              ("single event below the minimum angle", np.array([1e-5]), np.array([e]))):
+            try:
+                taus.tau_exit_prob(bb, ee)
+                raised = False
+            except Exception:
+                raised = True
+            events.append({"kind": "reject", "e": bits(e), "raised": raised,
+                           "_m": {"ver": version, "e": e, "what": "tau_exit_prob", "where": where, "raised": raised}})
     return events
 
 
